@@ -14,7 +14,7 @@ func init() {
 	propFuncs["C14"] = propC14
 	propInfos["C14"] = &PropInfo{
 		Level:   "other",
-		Explain: "Structural necessary conditions decided statically (DESIGN.md §5 C14), for every type of the module implementing stats.Histogram: C-once — every path through Add performs exactly one `counter++` and no other store; guard/counter agreement — the reach condition of the increment of the field Counts() returns as `under` is bin<0, of `over` is bin>=len(bins), of bins[bin] the complement (so 0<=bin<len(bins) at the indexed increment); D-floor — the bin index conversion has floor semantics (integral or non-negative operand), so a value just below the first edge gets a negative bin; B — BinToValue(b(x)) = x for the pre-floor bin function b with the constructor's field definitions substituted (bin function and edges are inverse), constructor fields, HistogramIQR = Q(0.75)-Q(0.25), and the total/goal/interpolation formulas of HistogramQuantile, including that the rank walked over the bins is uint(total*q) minus the under count and that the walk stops in the first bin whose count exceeds the remaining rank.",
+		Explain: "Structural necessary conditions decided statically (DESIGN.md §5 C14), for every type of the module implementing stats.Histogram: C-once — every path through Add performs exactly one `counter++` and no other store; guard/counter agreement — the reach condition of the increment of the field Counts() returns as `under` is bin<0, of `over` is bin>=len(bins), of bins[bin] the complement (so 0<=bin<len(bins) at the indexed increment); D-floor — the bin index conversion has floor semantics (integral or non-negative operand), so a value just below the first edge gets a negative bin; B — BinToValue(b(x)) = x for the pre-floor bin function b with the constructor's field definitions substituted (bin function and edges are inverse), constructor fields, HistogramIQR = Q(0.75)-Q(0.25), and the total/goal/interpolation formulas of HistogramQuantile, including that the rank walked over the bins is uint(total*q) minus the under count and that the walk stops in the first bin whose count exceeds the remaining rank. Added after the mutation sweep: NaN off the edges of the binned rank range and only there.",
 		Assume:  []string{"A4 reals", "q in [0,1] for HistogramQuantile (precondition)"},
 		Undec:   []string{"HistogramQuantile's boundary conventions: goal == under gives NaN, q=1 without over-flow reaches the final panic (the doc comment and the strict walk do not settle the intended rank origin)", "monotonicity of BinToValue and of the quantile in q"},
 	}
